@@ -1087,3 +1087,39 @@ def module_state_mutations(fn):
         elif isinstance(n, ast.AugAssign) and isinstance(n.target, ast.Name) and n.target.id in (globs & declared):
             out.append((n, n.target.id))
     return out
+
+
+# ------------------------------------------------------------------ importing the obligations of a property another one rests on
+def import_sort_obligations(ctx, rep, rule, minimum=20):
+    """The operators that merge / scan *sorted* input are right only if the sort is: the obligations of C05 about
+    petl.transform.sorts (run / merge agreement, stable merge, Comparable keys, tuple copies, exhaustion guard) are decided
+    again under `rule` of the importing property.  A rule of C05 that loses its anchor is reported undecided here (C05 itself
+    answers ANALYSIS-ERROR)."""
+    from . import c05
+    from ..report import Report
+    from ..loader import AnalysisError
+    sub = Report('C05', ctx.tier, ctx.root)
+    saved = ctx.report
+    saved_counts = dict(saved.counts)
+    ctx.report = sub
+    lost = None
+    try:
+        c05.run(ctx)
+    except AnalysisError as e:
+        # an anchor of C05 is gone: C05 itself answers ANALYSIS-ERROR; here the imported part is undecided
+        lost = e
+    finally:
+        ctx.report = saved
+    n = 0
+    if lost is not None:
+        rep.add(rule, ('petl.transform.sorts', '*'), 'C05 could not be decided', 'undecided', str(lost), 0, None)
+        return 0
+    for o in sub.obligations:
+        if o.module in ('petl.transform.sorts', 'petl.comparison'):
+            n += 1
+            rep.add(rule, (o.module, o.qualname), '%s: %s' % (o.rule, o.construct), o.status, o.message, o.lineno, o.detail)
+    for e in getattr(sub, 'errors', []):
+        rep.add(rule, ('petl.transform.sorts', '*'), 'C05: %s' % str(e)[:80], 'undecided', str(e), 0, None)
+    if n < minimum:
+        raise AnalysisError('anchor vanished: only %d obligations about the sort' % n)
+    return n
